@@ -183,6 +183,14 @@ def _free_consts(t):
 
 
 
+def recheck_unsat(assertions, cvc5_ms=20000):
+    """second opinion on a z3 `unsat`: the same assertions given to cvc5 -> (unsat|sat|unknown, seconds)"""
+    s = z3.Solver()
+    s.add(*assertions)
+    st, _v, dt = cvc5_run(s.to_smt2(), cvc5_ms)
+    return st, dt
+
+
 def check_sat(assertions, z3_ms=1500, cvc5_ms=8000, value_terms=None, want_model=False):
     """-> (status in sat|unsat|unknown, model (z3 ModelRef | dict | None), backend, seconds, smt2)"""
     t0 = time.time()
